@@ -2,6 +2,7 @@
 // /repo is never modified).
 //
 //	vtool l2 <in.go> <out.go> <label>    every x.Lock()/x.RLock() statement yields to the simulator first
+//	vtool sel <in.go> <out.go> <label>   receive-only select statements let the simulator pick among ready cases
 //	vtool simos <in.go> <out.go>         import "os" is redirected to the simulated disk package
 package main
 
@@ -23,6 +24,12 @@ func main() {
 			label = os.Args[4]
 		}
 		err = rewriteL2(os.Args[2], os.Args[3], label)
+	case "sel":
+		label := os.Args[3]
+		if len(os.Args) > 4 {
+			label = os.Args[4]
+		}
+		err = rewriteSel(os.Args[2], os.Args[3], label)
 	case "simos":
 		err = rewriteSimos(os.Args[2], os.Args[3])
 	default:
